@@ -42,6 +42,7 @@ Definition parse_header (p : profile) (r : reader) : outcome (header * reader) :
         if N.land fmt 1792 =? 0 then
           let* '(bl, r) := get_ue p r in
           let* '(el, r) := get_ue p r in
+          let* _ := ensure (el <? 65536) in      (* el_bit_depth_minus8 + ext_mapping_idc: 16 bits *)
           let ext := N.land (N.shiftr el 8) 255 in
           let* '(vdr, r) := get_ue p r in
           let* '(spatial, r) := get r in
